@@ -16,8 +16,12 @@ With(net, sid) == IF Find(net, sid) = {} THEN Append(logs, [net |-> net, sid |->
 Idx(ls, net, sid) == CHOOSE i \in DOMAIN ls : ls[i].net = net /\ ls[i].sid = sid
 
 IsUni(sid) == (sid \div 2) % 2 = 1
+\* RFC 9114 5.2 / 7.2.6: the identifier in a GOAWAY a SERVER sends is a client-initiated bidirectional stream id (a server's own
+\* unidirectional streams have ids = 3 mod 4; its control stream begins with the type byte 0x00)
+ServerGoawayOk(s) == (s.sid % 4 = 3 /\ s.bytes # <<>> /\ s.bytes[1] = 0) =>
+                        LET g == Goaways(Tail(s.bytes)) IN \A i \in DOMAIN g : g[i][8] % 4 = 0
 StreamOk(s) ==
-    IF IsUni(s.sid) THEN ValidUni(s.bytes, s.fin /\ ~s.reset, TRUE)
+    IF IsUni(s.sid) THEN ValidUni(s.bytes, s.fin /\ ~s.reset, TRUE) /\ ServerGoawayOk(s)
     ELSE IF s.bytes = <<>> THEN TRUE                        \* nothing written (e.g. refused before the head)
     \* a WebTransport bidirectional stream (signal value 0x41 as a two-byte varint, then the session id): its payload is the application's
     ELSE IF wt /\ Len(s.bytes) >= 2 /\ s.bytes[1] = 64 /\ s.bytes[2] = 65 THEN TRUE
